@@ -20,6 +20,8 @@ import (
 	"time"
 
 	"github.com/zeromicro/go-zero/core/stores/cache"
+	"github.com/zeromicro/go-zero/core/stores/monc"
+	"github.com/zeromicro/go-zero/core/stores/redis"
 	"github.com/zeromicro/go-zero/core/stores/sqlc"
 	"github.com/zeromicro/go-zero/core/stores/sqlx"
 	"github.com/zeromicro/go-zero/core/syncx"
@@ -29,8 +31,13 @@ import (
 
 // Op is one step of a history.
 type Op struct {
-	K   string `json:"k"`             // pk | take | qrow | qidx | get | write | del | writec | delc | set | setx | adv | tick | faildb | out+ | out- | jit
-	S   string `json:"s,omitempty"`   // pk: name of the primary-key shape (first op of a history only; default "small")
+	K   string `json:"k"`             // pk | conf | take | takex | qrow | qidx | get | nget | write | del | writec | delc | dcache | ndel | set | setx | nset | nsetx | adv | tick | faildb | out+ | out- | jit
+	S   string `json:"s,omitempty"`   // pk: name of the primary-key shape (first op of a history only; default "small"); conf: the expiry configuration "E=<opt>,N=<opt>"
+	C   bool   `json:"c,omitempty"`   // conf: the system is cache.New / sqlc.NewConn over the two-node cluster instead of NewNode / NewNodeConn
+	M   bool   `json:"m,omitempty"`   // conf: the system is the Mongo cached model (monc.NewModel over the cluster / monc.NewNodeModel)
+	T   string `json:"t,omitempty"`   // conf: "ct" = the single node is reached through a redis.ClusterType client (per-key DEL loop in cacheNode.DelCtx)
+	P   string `json:"p,omitempty"`   // conf with c: "same" = the index key lives on the same cluster node as the primary key of row 1 (default: on the other one)
+	A   string `json:"a,omitempty"`   // mw / mdel: the entry point of monc.Model (ins rep upd upid far fau many | del fad)
 	Key string `json:"key,omitempty"` // k1 | k2 (row 1 / row 2); qidx always reads the index key of row 1
 	V   string `json:"v,omitempty"`   // write: v1 | v2
 	D   int    `json:"d,omitempty"`   // adv: seconds
@@ -39,8 +46,31 @@ type Op struct {
 
 func (o Op) String() string {
 	switch o.K {
-	case "take", "qrow", "get", "del", "delc", "set", "setx":
+	case "take", "takex", "qrow", "get", "nget", "del", "delc", "dcache", "ndel", "set", "setx", "nset", "nsetx":
 		return o.K + "(" + o.Key + ")"
+	case "setx0":
+		return fmt.Sprintf("setx0(%s,%ds)", o.Key, o.D)
+	case "conf":
+		t := o.S
+		if o.C {
+			t += ",cluster"
+		}
+		if o.P != "" {
+			t += "," + o.P + "-node"
+		}
+		if o.T != "" {
+			t += ",redis-" + o.T
+		}
+		if o.M {
+			t += ",monc"
+		}
+		return "conf(" + t + ")"
+	case "mfind", "mget", "mset", "mdc":
+		return o.K + "(" + o.Key + ")"
+	case "mw":
+		return "mw:" + o.A + "(" + o.Key + "," + o.V + ")"
+	case "mdel":
+		return "mdel:" + o.A + "(" + o.Key + ")"
 	case "write", "writec":
 		return o.K + "(" + o.Key + "," + o.V + ")"
 	case "adv":
@@ -83,6 +113,7 @@ type refT struct {
 	// ("b" = background context, "c" = request context cancelled after the call): part of the
 	// state, because what a pending retry does may depend on the context it was created under
 	execLog string
+	conf    string // histories-conf: the configuration picked by the first op ("" = the main one)
 }
 
 func newRef() *refT {
@@ -137,6 +168,9 @@ func (r *refT) String() string {
 	if shape != &shapes[0] {
 		sh = "pk=" + shape.name + " "
 	}
+	if r.conf != "" {
+		sh += "conf{" + r.conf + "} "
+	}
 	return fmt.Sprintf(sh+"db{%s,%s} cache{%s} fail=%v out=%v/%d jit=%d ctx=%s", r.db["k1"], r.db["k2"], strings.Join(ks, ","), r.failNext, r.outage, r.outOps, r.jit, r.execLog)
 }
 
@@ -159,14 +193,21 @@ type sut struct {
 	db   *fakeDB
 	node cache.Cache     // cache.NewNode: Take with its own configured not-found error
 	cc   sqlc.CachedConn // sqlc.NewNodeConn: QueryRow / QueryRowIndex / GetCache / SetCache / Exec
+	mm   *monc.Model     // histories-monc: the Mongo cached model over the same database (m* ops)
 }
 
-func newSut(cluster bool) *sut { return newSutWith(cluster, expiry, notFoundExpiry) }
+func newSut(cluster bool) *sut { return newSutOpts(cluster, curConf.options()) }
 
 func newSutWith(cluster bool, exp, nfExp time.Duration) *sut {
+	return newSutOpts(cluster, []cache.Option{cache.WithExpiry(exp), cache.WithNotFoundExpiry(nfExp)})
+}
+
+func newSutOpts(cluster bool, opts []cache.Option) *sut { return newSutRedis(cluster, env.rds, opts) }
+
+// newSutRedis: rds is the client of the single-node system (node type, or cluster type: rdsType "ct")
+func newSutRedis(cluster bool, rds *redis.Redis, opts []cache.Option) *sut {
 	env.reset()
 	db := newFakeDB()
-	opts := []cache.Option{cache.WithExpiry(exp), cache.WithNotFoundExpiry(nfExp)}
 	if cluster {
 		// cache.New / sqlc.NewConn over two nodes: cacheCluster dispatches every key by consistent hash
 		return &sut{be: env.cluster, db: db,
@@ -174,8 +215,8 @@ func newSutWith(cluster bool, exp, nfExp time.Duration) *sut {
 			cc:   sqlc.NewConn(db, env.conf, opts...)}
 	}
 	return &sut{be: env.single, db: db,
-		node: cache.NewNode(env.rds, syncx.NewSingleFlight(), env.st, errNodeNF, opts...),
-		cc:   sqlc.NewNodeConn(db, env.rds, opts...)}
+		node: cache.NewNode(rds, syncx.NewSingleFlight(), env.st, errNodeNF, opts...),
+		cc:   sqlc.NewNodeConn(db, rds, opts...)}
 }
 
 // outcome of a read, normalised: "row:<v>" | "notfound" | "dberr" | "err:<text>"
@@ -232,15 +273,32 @@ func (s *sut) step(ref *refT, op Op, verbose bool) *failure {
 	expectQ := -1     // expected number of DB queries (-1 = not checked)
 
 	switch op.K {
-	case "take", "qrow", "get":
+	case "take", "takex", "qrow", "get", "nget", "mfind", "mget":
 		var row Row
 		var err error
 		nf := error(sql.ErrNoRows)
 		id := pkOf(op.Key) // the model's FindOne passes its typed primary key
+		var handed []time.Duration // takex: the expiry TakeWithExpire handed to the query
 		switch op.K {
 		case "take":
 			nf = errNodeNF
 			err = s.node.Take(&row, rk, func(v any) error { return s.db.byPrimary(id, v, errNodeNF) })
+		case "takex":
+			// TakeWithExpire: the query is told the expiry its row is going to be cached with
+			nf = errNodeNF
+			err = s.node.TakeWithExpire(&row, rk, func(v any, expire time.Duration) error {
+				handed = append(handed, expire)
+				return s.db.byPrimary(id, v, errNodeNF)
+			})
+		case "nget":
+			nf = errNodeNF
+			err = s.node.Get(rk, &row)
+		case "mfind":
+			nf = monc.ErrNotFound
+			err = s.mm.FindOne(context.Background(), rk, &row, rowFilter{k: op.Key})
+		case "mget":
+			nf = monc.ErrNotFound
+			err = s.mm.GetCache(rk, &row)
 		case "qrow":
 			err = s.cc.QueryRow(&row, rk, func(conn sqlx.SqlConn, v any) error {
 				return conn.(*fakeDB).byPrimary(id, v, sqlc.ErrNotFound)
@@ -249,6 +307,18 @@ func (s *sut) step(ref *refT, op Op, verbose bool) *failure {
 			err = s.cc.GetCache(rk, &row)
 		}
 		obs.outcome = readOutcome(&row, err, nf, pkString(op.Key))
+		if op.K == "take" || op.K == "takex" || op.K == "nget" {
+			// the cache's own classification of the error agrees with its configured not-found error
+			if is := s.node.IsNotFound(err); is != (obs.outcome == "notfound") {
+				return fail("is-not-found-disagrees:"+op.K, "%v returned %s (%v) but IsNotFound says %v", op, obs.outcome, err, is)
+			}
+		}
+		for _, x := range handed {
+			// derived from the configured expiry: within the jitter bracket (never zero or negative)
+			if x < curExp*95/100 || x > curExp*105/100 {
+				return fail("expiry-handed-to-query-out-of-range", "%v handed expiry %v to the query, configured (effective) expiry is %v +/-5%%", op, x, curExp)
+			}
+		}
 		e := ref.ent[ck]
 		switch {
 		case during:
@@ -256,7 +326,7 @@ func (s *sut) step(ref *refT, op Op, verbose bool) *failure {
 			ref.outOps++
 		case tainted:
 			// coherence of this key is no longer demanded
-		case op.K == "get":
+		case op.K == "get" || op.K == "nget" || op.K == "mget":
 			expectQ = 0
 			if e.kind == eVal {
 				expect = "row:" + e.val
@@ -334,6 +404,95 @@ func (s *sut) step(ref *refT, op Op, verbose bool) *failure {
 				writes = append(writes, written{keyIx, valLo, valHi}, written{keyP1, valLo, valHi + indexGapSlack})
 			}
 		}
+	case "mw", "mdel", "mdc":
+		// the Mongo cached model: a write / delete through the named entry point with the cache key(s)
+		// of what it changes (UpdateMany: every present row, both keys); mdc = DelCache only
+		keys := []string{ck}
+		if op.A == "many" {
+			keys = []string{keyP1, keyP2}
+		}
+		resOK, err := true, error(nil)
+		absent := ref.db[op.Key] == ""
+		if op.K == "mdc" {
+			err = s.mm.DelCache(context.Background(), rk)
+		} else {
+			resOK, err = moncWrite(s.mm, s.be, op.A, op.Key, op.V)
+		}
+		vsched.Quiesce()
+		switch {
+		case op.K == "mdc":
+		case op.A == "many":
+			for _, k := range []string{"k1", "k2"} {
+				if ref.db[k] != "" {
+					ref.db[k] = op.V
+				}
+			}
+		case op.K == "mdel":
+			ref.db[op.Key] = ""
+		case op.A == "ins" || !absent:
+			ref.db[op.Key] = op.V
+		}
+		obs.outcome = "ok"
+		if err != nil {
+			obs.outcome = "err:" + err.Error()
+		}
+		expectQ = 0
+		noDoc := absent && (op.A == "far" || op.A == "fau" || op.A == "fad") // nothing matched: the model reports it, nothing to invalidate
+		switch {
+		case during:
+			ref.outOps++
+			for _, k := range keys {
+				ref.taint[k] = true
+				*ref.ent[k] = entry{}
+			}
+			ref.execLog += "b"
+		case noDoc:
+			if !errors.Is(err, monc.ErrNotFound) {
+				return fail("wrong-not-found-error:"+op.K+":"+op.A, "%v on an absent row returned %v, expected the model's not-found error", op, err)
+			}
+		default:
+			if err != nil || !resOK {
+				return fail("exec-error-without-fault", "%v returned result present=%v error %v although neither the database nor the cache failed", op, resOK, err)
+			}
+			for _, k := range keys {
+				*ref.ent[k] = entry{}
+				delete(ref.taint, k)
+			}
+		}
+	case "dcache", "ndel":
+		// the cache entries of the row are deleted without a database write (CachedConn.DelCache /
+		// Cache.Del: what a model does after a write it issued through another path)
+		keys := keysOfRow(op.Key)
+		var realKeys []string
+		for _, k := range keys {
+			realKeys = append(realKeys, s.be.real(k))
+		}
+		var err error
+		if op.K == "dcache" {
+			err = s.cc.DelCache(realKeys...)
+		} else {
+			err = s.node.Del(realKeys...)
+		}
+		vsched.Quiesce()
+		obs.outcome = "ok"
+		if err != nil {
+			obs.outcome = "err:" + err.Error()
+		}
+		expectQ = 0
+		if during {
+			ref.outOps++
+			for _, k := range keys {
+				ref.taint[k] = true
+				*ref.ent[k] = entry{}
+			}
+			ref.execLog += "b"
+		} else {
+			expect = "ok"
+			for _, k := range keys {
+				*ref.ent[k] = entry{}
+				delete(ref.taint, k)
+			}
+		}
 	case "write", "del", "writec", "delc":
 		isWrite := op.K == "write" || op.K == "writec"
 		keys := keysOfRow(op.Key)
@@ -405,13 +564,20 @@ func (s *sut) step(ref *refT, op Op, verbose bool) *failure {
 			}
 		}
 		expectQ = 0
-	case "set":
+	case "set", "nset", "mset":
 		id := rowIDOf(op.Key)
 		row := s.db.rows[id]
 		if row == nil {
 			return fail("harness", "set on absent row")
 		}
-		err := s.cc.SetCache(rk, row)
+		var err error
+		if op.K == "nset" {
+			err = s.node.Set(rk, row)
+		} else if op.K == "mset" {
+			err = s.mm.SetCache(rk, row)
+		} else {
+			err = s.cc.SetCache(rk, row)
+		}
 		obs.outcome = "ok"
 		if err != nil {
 			obs.outcome = "err:" + err.Error()
@@ -427,13 +593,32 @@ func (s *sut) step(ref *refT, op Op, verbose bool) *failure {
 			*ref.ent[ck] = entry{kind: eVal, val: ref.db[op.Key]}
 			writes = append(writes, written{ck, valLo, valHi})
 		}
-	case "setx":
+	case "setx0":
+		// on by default (C06_REQUESTED_NONPOSITIVE=0 switches it off; listed known finding, see NOTES "Candidate findings"): SetCacheWithExpire with a
+		// REQUESTED expiry of 0 / -1 s. Whatever the call answers, no persistent key may result.
+		row := s.db.rows[rowIDOf(op.Key)]
+		if row == nil {
+			return fail("harness", "setx0 on absent row")
+		}
+		err := s.cc.SetCacheWithExpire(rk, row, time.Duration(op.D)*time.Second)
+		for _, x := range s.be.contents() {
+			if x.key == ck && x.ttl == 0 {
+				return fail("persistent-key:requested-expiry-nonpositive", "%v: SetCacheWithExpire with requested expiry %ds (err=%v) wrote %s=%s without a TTL", op, op.D, err, x.key, x.val)
+			}
+		}
+		return fail("harness", "setx0: no persistent key, but the reference has no model of this call (err=%v)", err)
+	case "setx", "nsetx":
 		// SetCacheWithExpire with a REQUESTED expiry of 2.5 s: finite TTL derived from it, rounded up
 		row := s.db.rows[rowIDOf(op.Key)]
 		if row == nil {
 			return fail("harness", "setx on absent row")
 		}
-		err := s.cc.SetCacheWithExpire(rk, row, requestedExpiry)
+		var err error
+		if op.K == "nsetx" {
+			err = s.node.SetWithExpire(rk, row, requestedExpiry)
+		} else {
+			err = s.cc.SetCacheWithExpire(rk, row, requestedExpiry)
+		}
 		obs.outcome = "ok"
 		if err != nil {
 			obs.outcome = "err:" + err.Error()
@@ -466,7 +651,13 @@ func (s *sut) step(ref *refT, op Op, verbose bool) *failure {
 			}
 		}
 		s.attempts = nil
-		for i := 0; i < d; i++ {
+		ticks := d
+		if d > 3600 && len(cache.VerifCleanerPending()) == 0 {
+			// days pass (default expiries) and no retry is pending: a tick of the empty cleaner
+			// wheel has no effect, the 10^5 of them are not replayed
+			ticks = 0
+		}
+		for i := 0; i < ticks; i++ {
 			vsched.Send(s.tk.c, vsched.TimeNow())
 			vsched.Quiesce()
 		}
@@ -491,6 +682,30 @@ func (s *sut) step(ref *refT, op Op, verbose bool) *failure {
 			return fail("harness", "pk(%s): unknown shape or not at the start of the history", op.S)
 		}
 		shape = sh
+	case "conf":
+		c, ok := confByName(op.S)
+		if !ok || len(s.be.contents()) != 0 || len(s.db.rows) != 0 {
+			return fail("harness", "conf(%s): unknown configuration or not at the start of the history", op.S)
+		}
+		if op.C && env.cluster == nil {
+			return fail("harness", "conf(%s,cluster): the cluster backend is not initialised", op.S)
+		}
+		// the system is built again, with exactly these options (the store is still empty)
+		setConf(c)
+		n := newSutOpts(op.C, c.options())
+		if op.T == "ct" && !op.C {
+			n = newSutRedis(false, env.clusterTypeRedis(), c.options())
+		}
+		s.be, s.db, s.node, s.cc = n.be, n.db, n.node, n.cc
+		if op.C && op.P == "same" {
+			s.be = env.clusterSame
+		}
+		if op.M {
+			// monc.NewModel(uri, db, collection, conf, opts...) / monc.NewNodeModel(..., rds, opts...)
+			s.mm = newMoncModel(op.C, &fakeColl{db: s.db}, c.options())
+			s.node, s.cc = nil, sqlc.CachedConn{}
+		}
+		ref.conf = op.String()[5 : len(op.String())-1]
 	case "faildb":
 		s.db.failNext = true
 		ref.failNext = true
@@ -511,7 +726,7 @@ func (s *sut) step(ref *refT, op Op, verbose bool) *failure {
 	if expectQ == 1 && expect != "" {
 		ref.failNext = false // the one query of this read consumed the armed failure
 	}
-	if tainted && !during && (op.K == "take" || op.K == "qrow" || op.K == "qidx") {
+	if tainted && !during && (op.K == "take" || op.K == "takex" || op.K == "qrow" || op.K == "qidx" || op.K == "mfind") {
 		ref.failNext = s.db.failNext // a read of a tainted key may or may not have queried
 	}
 	content := s.be.contents()
@@ -631,7 +846,7 @@ func (s *sut) step(ref *refT, op Op, verbose bool) *failure {
 		switch {
 		case e.kind == eNone && !present:
 		case e.kind == eNone && present:
-			if (op.K == "write" || op.K == "del" || op.K == "writec" || op.K == "delc" || op.K == "adv" || op.K == "tick") && ref.coherent(k, obsE) {
+			if (op.K == "write" || op.K == "del" || op.K == "writec" || op.K == "delc" || op.K == "dcache" || op.K == "ndel" || op.K == "mw" || op.K == "mdel" || op.K == "mdc" || op.K == "adv" || op.K == "tick") && ref.coherent(k, obsE) {
 				*e = obsE
 				continue
 			}
@@ -734,9 +949,11 @@ func unexpectedEntryClass(op Op, x kv) string {
 	switch op.K {
 	case "adv", "tick":
 		return "stale-entry-survives-retry:" + entryTag(x)
-	case "write", "del", "writec", "delc":
+	case "write", "del", "writec", "delc", "dcache", "ndel", "mdc":
 		return "stale-entry-survives-invalidation:" + entryTag(x)
-	case "take", "qrow", "qidx":
+	case "mw", "mdel":
+		return "stale-entry-survives-invalidation:" + op.K + ":" + op.A + ":" + entryTag(x)
+	case "take", "takex", "qrow", "qidx", "mfind":
 		return "failed-read-cached:" + op.K + ":" + entryTag(x)
 	}
 	return "unexpected-entry:" + op.K
@@ -753,12 +970,13 @@ type histResult struct {
 
 func runHistory(path []Op, verbose, cluster bool) histResult {
 	initEnv()
-	if cluster {
+	if cluster || (len(path) > 0 && path[0].K == "conf" && path[0].C) {
 		env.initCluster()
 	}
 	var out histResult
 	shape = &shapes[0]
-	defer func() { shape = &shapes[0] }()
+	setConf(mainConf)
+	defer func() { shape = &shapes[0]; setConf(mainConf) }()
 	// The whole history runs as the driver thread of one vsched execution in sequential-driver
 	// mode: the cleaner's timing wheel and task runner (rewritten core/collection, core/threading)
 	// are controlled threads, the harness owns the wheel's ticker, and Quiesce() after an operation
@@ -817,8 +1035,19 @@ func foldPath(path []Op) abstractState {
 		switch o.K {
 		case "write", "writec":
 			a.db[o.Key] = o.V
-		case "del", "delc":
+		case "del", "delc", "mdel":
 			a.db[o.Key] = ""
+		case "mw":
+			switch {
+			case o.A == "many":
+				for _, k := range []string{"k1", "k2"} {
+					if a.db[k] != "" {
+						a.db[k] = o.V
+					}
+				}
+			case o.A == "ins" || a.db[o.Key] != "":
+				a.db[o.Key] = o.V
+			}
 		case "faildb":
 			a.failNext = true // cleared only by a query; enabling it twice is filtered by the state key
 		case "out+":
@@ -830,7 +1059,7 @@ func foldPath(path []Op) abstractState {
 		}
 		if a.outage {
 			switch o.K {
-			case "take", "qrow", "qidx", "get", "write", "del", "writec", "delc", "set", "setx":
+			case "take", "takex", "qrow", "qidx", "get", "nget", "write", "del", "writec", "delc", "dcache", "ndel", "set", "setx", "nset", "nsetx":
 				a.outOps++
 				if o.K == "write" || o.K == "del" || o.K == "writec" || o.K == "delc" {
 					a.failedInval++
@@ -961,6 +1190,131 @@ func alphabetPK(depth int, path []Op) []Op {
 	return ops
 }
 
+// alphabetConf: the sequential histories again over the EXPIRY CONFIGURATION family and over the
+// entry points of the cache.Cache interface itself. The first op picks what the caller hands to
+// cache.WithExpiry / cache.WithNotFoundExpiry - each of {option not given, 0, negative, positive}
+// for the row expiry x the same for the not-found expiry - and whether the system is a single node
+// (NewNode / NewNodeConn) or the two-node cluster (cache.New / sqlc.NewConn); the options go to the
+// constructors exactly like that. Then: reads through every entry point incl. TakeWithExpire and
+// Cache.Get, explicit sets through SetCache / Cache.Set / SetCacheWithExpire / Cache.SetWithExpire,
+// writes and deletes through Exec, cache-only invalidation through DelCache / Cache.Del, clock
+// advances sized by the EFFECTIVE expiries (the documented defaults where the option carries no
+// positive value: {E/2, E, N, E+6 s}), a failing query. The TTL-after-every-step oracle, the
+// brackets at write time and the served-until-expiry oracles work with the effective expiries.
+func alphabetConf(thorough bool) func(depth int, path []Op) []Op {
+	return func(depth int, path []Op) []Op {
+		if len(path) == 0 {
+			var ops []Op
+			for _, e := range expMenu {
+				for _, n := range nfMenu {
+					ops = append(ops, Op{K: "conf", S: expConf{e, n}.String()})
+				}
+			}
+			// the cluster constructors get the same options: the corners of the family
+			for i, e := range expMenu {
+				for j, n := range nfMenu {
+					if thorough || i == j {
+						ops = append(ops, Op{K: "conf", S: expConf{e, n}.String(), C: true})
+					}
+				}
+			}
+			// the single node behind a redis.ClusterType client
+			ops = append(ops, Op{K: "conf", S: mainConf.String(), T: "ct"})
+			// second key placement on the cluster: index key and primary key of row 1 on one node
+			ops = append(ops, Op{K: "conf", S: mainConf.String(), C: true, P: "same"})
+			if thorough {
+				ops = append(ops, Op{K: "conf", S: expConf{}.String(), C: true, P: "same"})
+			}
+			return ops
+		}
+		c, _ := confByName(path[0].S)
+		a := foldPath(path)
+		ops := []Op{{K: "qrow", Key: "k1"}, {K: "takex", Key: "k1"}, {K: "qidx"}, {K: "nget", Key: "k1"}, {K: "take", Key: "k2"}}
+		for _, v := range []string{"v1", "v2"} {
+			if a.db["k1"] != v {
+				ops = append(ops, Op{K: "write", Key: "k1", V: v})
+			}
+		}
+		if a.db["k1"] != "" {
+			ops = append(ops, Op{K: "del", Key: "k1"})
+		}
+		ops = append(ops, Op{K: "dcache", Key: "k1"}, Op{K: "ndel", Key: "k1"})
+		if a.db["k1"] != "" {
+			ops = append(ops, Op{K: "set", Key: "k1"}, Op{K: "nset", Key: "k1"}, Op{K: "setx", Key: "k1"}, Op{K: "nsetx", Key: "k1"})
+			if os.Getenv("C06_REQUESTED_NONPOSITIVE") != "0" { // on by default; the class is a listed known finding
+				ops = append(ops, Op{K: "setx0", Key: "k1", D: 0}, Op{K: "setx0", Key: "k1", D: -1})
+			}
+		}
+		e := int(c.e.effective(documentedExpiry) / time.Second)
+		n := int(c.n.effective(documentedNotFoundExpiry) / time.Second)
+		for _, d := range []int{e / 2, e, n, e + 6} {
+			ops = append(ops, Op{K: "adv", D: d})
+		}
+		ops = append(ops, Op{K: "faildb"})
+		return ops
+	}
+}
+
+// alphabetMonc: sequential histories of the Mongo cached model. First op: expiry configuration x
+// {monc.NewNodeModel over the single node, monc.NewModel over the two-node cluster}; then FindOne /
+// GetCache reads, a write of row k1 to the other value through EVERY write entry point that takes a
+// cache key (InsertOne when the row is absent; ReplaceOne, UpdateOne, UpdateByID,
+// FindOneAndReplace, FindOneAndUpdate when present; UpdateMany over all rows with both keys),
+// DeleteOne / FindOneAndDelete, DelCache, SetCache, clock advances sized by the effective expiries
+// and a failing find.
+func alphabetMonc(thorough bool) func(depth int, path []Op) []Op {
+	return func(depth int, path []Op) []Op {
+		if len(path) == 0 {
+			var ops []Op
+			for _, cl := range []bool{false, true} {
+				for i, e := range expMenu {
+					for j, n := range nfMenu {
+						if thorough || i == j {
+							ops = append(ops, Op{K: "conf", S: expConf{e, n}.String(), C: cl, M: true})
+						}
+					}
+				}
+			}
+			return ops
+		}
+		c, _ := confByName(path[0].S)
+		a := foldPath(path)
+		other := func(k string) string {
+			if a.db[k] == "v1" {
+				return "v2"
+			}
+			return "v1"
+		}
+		ops := []Op{{K: "mfind", Key: "k1"}, {K: "mget", Key: "k1"}, {K: "mfind", Key: "k2"}}
+		if a.db["k1"] == "" {
+			ops = append(ops, Op{K: "mw", A: "ins", Key: "k1", V: "v1"})
+			// the find-and-modify family on an absent row: reported as not found, nothing changes
+			ops = append(ops, Op{K: "mw", A: "fau", Key: "k1", V: "v1"})
+		} else {
+			for _, api := range moncWriteAPIs[1:] {
+				ops = append(ops, Op{K: "mw", A: api, Key: "k1", V: other("k1")})
+			}
+			for _, api := range moncDeleteAPIs {
+				ops = append(ops, Op{K: "mdel", A: api, Key: "k1"})
+			}
+			ops = append(ops, Op{K: "mset", Key: "k1"})
+		}
+		if a.db["k2"] == "" {
+			ops = append(ops, Op{K: "mw", A: "ins", Key: "k2", V: "v2"})
+		} else {
+			ops = append(ops, Op{K: "mdel", A: "del", Key: "k2"})
+		}
+		ops = append(ops, Op{K: "mdc", Key: "k1"})
+		e := int(c.e.effective(documentedExpiry) / time.Second)
+		n := int(c.n.effective(documentedNotFoundExpiry) / time.Second)
+		for _, d := range []int{e / 2, e, n, e + 6} {
+			ops = append(ops, Op{K: "adv", D: d})
+		}
+		ops = append(ops, Op{K: "faildb"})
+		return ops
+	}
+}
+
 // HistCase is the replay artefact of a failing history.
 type HistCase struct {
 	Kind    string `json:"kind"`              // "history"
@@ -979,9 +1333,18 @@ func pathString(p []Op) string {
 // maxFailedInval: invalidations that may fail per history; plain: also offer Exec with a background
 // context during outages (besides the request-context variant).
 func searchHistories(cfg *vlib.Config, r *vlib.Report, name string, cluster bool, depth, maxFailedInval int, plain bool, deadline time.Time) {
+	if only := os.Getenv("C06_SEARCH"); only != "" && only != name && cfg.BFSWorker == "" { // debugging aid: one search only
+		return
+	}
 	alpha := alphabet(cluster, maxFailedInval, plain)
 	if name == "histories-pk" {
 		alpha = alphabetPK
+	}
+	if name == "histories-conf" {
+		alpha = alphabetConf(cfg.Thorough())
+	}
+	if name == "histories-monc" {
+		alpha = alphabetMonc(cfg.Thorough())
 	}
 	classes := map[string]int{}
 	tag := ""
